@@ -945,6 +945,8 @@ def c_chain(run, n, terms, meta):
         points = pts + [fin, fin]                    # the argument and the result of '#finalize'
         r = run.rng.random()
         Q = run.rng.choice(points) + run.rng.choice([-1, 0, 0, 1]) if r < 0.85 else run.rng.choice([0, -1, 10 ** 6, 64])
+        if 0 < Q < 64:               # below that the engine's own Constant / int objects are over quota
+            Q = 64
         how = how_of(i)
         raised, other = eval_chain(text, env, Q, how)
         run.case(("chain", text, tuple(sorted(env.items())), Q, how), nontrivial=Q > 0 and min(points) - 2 <= Q <= max(points) + 2)
